@@ -569,9 +569,37 @@ def normalized(ctx):
     ctx.ob('NORMALIZED', loc, 'isotropic: Hill shear and bulk moduli of an isotropic tensor reproduce it (fixed point)', bool(ok), node=fn, key='isotropic')
 
 
+def axes_check_rule(ctx, rule='TRANSFORM'):
+    """axes_check (what transform() does to the axes it is given): each row divided by its own length; orthogonal right-handed sets of any lengths accepted, others refused"""
+    AX = 'atomman/tools/axes_check.py'
+    fn = ctx.fn(AX, 'axes_check')
+    loc = AX + '::axes_check'
+    R = sp.Rational
+
+    def run_(axes):
+        ev = SymEval(module_aliases(ctx.mod(AX)))
+        try:
+            live = [q for q in ev.run_fn(fn, [axes], {}) if q.done == 'return']
+        except WouldRaise:
+            return 'refused', None
+        except Opaque as e:
+            raise AnalysisError('axes_check: %s' % e)
+        return ('accepted', live[0].ret) if len(live) == 1 else ('refused', None)
+    for tag, axes in (('orthogonal rows of different lengths', [[1, -1, 0], [1, 1, -2], [1, 1, 1]]), ('the same as a nested list of lists with a factor', [[2, 2, 2], [-4, 2, 2], [0, -3, 3]]),
+                      ('unit axes', [[1, 0, 0], [0, 1, 0], [0, 0, 1]]), ('rows of length 2, 3 and 5 along the Cartesian axes in another order', [[0, 2, 0], [0, 0, 3], [5, 0, 0]])):
+        st_, got = run_(arr(axes) if 'nested' not in tag else [list(r) for r in axes])
+        want = np.array([[sp.nsimplify(x) / sp.sqrt(sum(sp.nsimplify(y) ** 2 for y in row)) for x in row] for row in axes], dtype=object)
+        ok = st_ == 'accepted' and np.shape(got) == (3, 3) and all(is_zero(sp.nsimplify(a_) - b_) for a_, b_ in zip(np.ravel(np.asarray(got, dtype=object)), np.ravel(want)))
+        ctx.ob(rule, loc, '%s: accepted, every row divided by its own length' % tag, bool(ok), 'the call is %s%s' % (st_, '' if got is None else ', rows %s' % [[str(sp.nsimplify(x)) for x in r] for r in np.asarray(got, dtype=object)]),
+               node=fn, key='axes ' + tag[:30])
+    for tag, axes in (('rows that are not orthogonal', [[1, 0, 0], [1, 1, 0], [0, 0, 1]]), ('a left-handed set', [[1, 0, 0], [0, 1, 0], [0, 0, -1]])):
+        st_, got = run_(arr(axes))
+        ctx.ob(rule, loc, '%s: refused' % tag, st_ == 'refused', node=fn, key='axes ' + tag[:30])
+
+
 def run(ctx):
     ctx.explanation = ('C11: the getters/setters, transform, crystal-system constructors, isotropic pair algebra, normalisation and modulus estimates of ElasticConstants are '
                        'evaluated by the analyser on generic symmetric matrices of symbols and compared, as exact polynomial / rational identities, with the Voigt map, the tensor '
                        'transformation law, the invariance of each system under its rotation generators, the (λ, μ) definitions of the six isotropic moduli and the Voigt/Reuss/Hill '
                        'formulas. Not decided: positive-definiteness and numerical conditioning.')
-    ctx.run_rules([voigt, compliance, transform, crystal, isotropic, normalized])
+    ctx.run_rules([voigt, compliance, transform, axes_check_rule, crystal, isotropic, normalized])
